@@ -7,7 +7,7 @@
 (* started whatever the others are doing, no span is finished twice or used *)
 (* after Finish, and no two callers touch the shared option slice           *)
 (* unsynchronised.  The SharedSpanVar variant (span kept in a field of the  *)
-(* transport) and the as-built D42 variant (append into the shared options) *)
+(* transport) and the as-built D52 variant (append into the shared options) *)
 (* must violate.                                                            *)
 EXTENDS ClientTracing
 
